@@ -62,12 +62,12 @@ def cases(tier, seed):
     d.update(geos[0])
     d.update({"fields": list(scope.CASE_FIELDS), "layout": [None, scope.layouts(2, 'idrev')[-1]], "seed": seed, "payload": "coded"})
     out.append({"desc": d, "w": 12})
-    # FAB header lines longer than 100 bytes (finest of 4 levels in the far corner, 12 fields): one field, the
+    # FAB header lines longer than 100 bytes (finest of 7 levels in the far corner, 12 fields): one field, the
     # finest grid only (1024 x 128 x 128), identity schedule
     d = dict(scope.deep_corner_mesh())
     d.update(geos[1])
     d.update({"fields": ["f%d" % i for i in range(12)], "seed": seed, "payload": ["coded", "signed", "pos"] * 4,
-              "layout": [None, scope.layouts(2, 'idrev')[-1], None, scope.layouts(2, 'idrev')[1]]})
+              "layout": [None, scope.layouts(2, 'idrev')[-1], None, scope.layouts(2, 'idrev')[1], None, None, scope.layouts(2, 'idrev')[-1]]})
     out.append({"desc": d, "w": 60, "deep": True})
     return out
 
